@@ -595,4 +595,22 @@ theorem pmatch_dir_star (dir : Path) (hdir : ∀ n ∈ dir, PlainName n) (x : Na
   rw [h2, matchItems_literal]
   exact matchItems_plus x hx
 
+/-! ### the project root -/
+
+theorem stopAt_two (fs : FTree) (hs : Path → Bool) (d : Path) (a b : String) :
+    stopAt fs hs d [(a, "section"), (b, "exists")] =
+      match subtree fs (d ++ [a.toList]) with
+      | some _ => if hs (d ++ [a.toList]) then some (d, some (d ++ [a.toList]))
+                  else (match subtree fs (d ++ [b.toList]) with | some _ => some (d, none) | none => none)
+      | none => (match subtree fs (d ++ [b.toList]) with | some _ => some (d, none) | none => none) := by
+  have e1 : ("exists" == "section") = false := by decide
+  have e2 : ("section" == "section") = true := by decide
+  have e3 : ("exists" == "exists") = true := by decide
+  simp only [stopAt, stopRule, e1, e2, e3]
+  cases subtree fs (d ++ [a.toList]) <;> cases subtree fs (d ++ [b.toList]) <;> simp
+  all_goals (cases hs (d ++ [a.toList]) <;> simp)
+
+theorem stopAt_rules (fs : FTree) (hs : Path → Bool) (d : Path) :
+    stopAt fs hs d Generated.rootStopRules = stopAt fs hs d [("pyproject.toml", "section"), (".git", "exists")] := rfl
+
 end Pytask.Clean
